@@ -111,9 +111,18 @@ def file_spec(rec, inst):
         pne, pnv, png = ['0,0'] + pne, [None] + pnv, [None] + png
         ev = [[(7 * i) % 200 if dt == 'I' else float((7 * i) % 200)] + list(row) for i, row in enumerate(ev)]
         D += 1
-    return dict(version='FCS3.0', datatype=dt, byteord='1,2,3,4' if dt == 'F' else '4,3,2,1',
+    if rec.get('no_volt'):
+        pnv = [None] * D                 # a file that records no detector voltages at all
+    if rec.get('drop_fl') is not None:
+        # a detector that was switched off: the instrument sheet lists the channel, this file does not have it
+        j = names.index(fl[rec['drop_fl']])
+        names, pne, pnv, png = [[v for i, v in enumerate(l) if i != j] for l in (names, pne, pnv, png)]
+        ev = [[v for i, v in enumerate(row) if i != j] for row in ev]
+        D -= 1
+    return dict(version=rec.get('version', 'FCS3.0'), datatype=dt, byteord='1,2,3,4' if dt == 'F' else '4,3,2,1',
                 widths=[{'I': 16, 'F': 32, 'D': 64}[dt]] * D, ranges=[int(rec.get('res', 1024))] * D, names=names, pne=pne, pnv=pnv, png=png,
-                events=ev, extra=[['$TIMESTEP', str(rec.get('timestep', '0.1'))], ['$BTIM', '12:00:00'], ['$ETIM', '12:05:00'], ['$DATE', '01-JAN-2020']])
+                events=ev, extra=[['$TIMESTEP', str(rec.get('timestep', '0.1'))], ['$BTIM', '12:00:00'], ['$ETIM', '12:05:00'], ['$DATE', '01-JAN-2020']]
+                + [list(kv) for kv in rec.get('extra_kw', [])])
 
 
 # ----------------------------------------------------------------------------------------------
